@@ -137,12 +137,14 @@ fn any_op() -> Operation {
 
 /// three stacked segments A (bottom), B, C (top) given by their x-extents; the reference simulates the
 /// documented loop on the event list (sorted by x; all x distinct in the templates)
-fn stack3(ax: (f64, f64), bx: (f64, f64), cx: (f64, f64)) {
-    let (ta, tb, tc): (bool, bool, bool) = (kani::any(), kani::any(), kani::any());
+/// mode 0: the complete sweep (operation Union, no early exit) with symbolic operand tags and return
+/// codes; mode 1: the early-exit rule (operation and box limits symbolic, tags and codes concrete)
+fn stack3(ax: (f64, f64), bx: (f64, f64), cx: (f64, f64), mode: u8) {
+    let (ta, tb, tc): (bool, bool, bool) = if mode == 0 { (kani::any(), kani::any(), kani::any()) } else { (true, false, true) };
     let a = seg_c(c(ax.0, 0.), c(ax.1, 0.), ta, 1);
     let b = seg_c(c(bx.0, 1.), c(bx.1, 1.), tb, 2);
     let cc = seg_c(c(cx.0, 2.), c(cx.1, 2.), tc, 3);
-    let op = any_op();
+    let op = if mode == 0 { Operation::Union } else { any_op() };
     // boxes: only max.x matters to subdivide; chosen among values between the event abscissas
     let pick = |k: u8| -> f64 {
         match k % 4 {
@@ -152,15 +154,14 @@ fn stack3(ax: (f64, f64), bx: (f64, f64), cx: (f64, f64)) {
             _ => 50.0,
         }
     };
-    let (smax, cmax) = (pick(kani::any()), pick(kani::any()));
+    let (smax, cmax) = if mode == 0 { (50.0, 50.0) } else { (pick(kani::any()), pick(kani::any())) };
     let sb = BoundingBox { min: c(0., 0.), max: c(smax, 2.) };
     let cb = BoundingBox { min: c(0., 0.), max: c(cmax, 2.) };
     let mut codes = [0u8; 8];
     let mut i = 0;
-    while i < 8 {
-        let k: u8 = kani::any();
-        kani::assume(k < 4);
-        codes[i] = k;
+    while mode == 0 && i < 4 {
+        // only the value 2 changes what subdivide does with a return code
+        codes[i] = if kani::any() { 2 } else { 0 };
         i += 1;
     }
     unsafe {
@@ -290,13 +291,13 @@ fn stack3(ax: (f64, f64), bx: (f64, f64), cx: (f64, f64)) {
         assert!(unsafe { LOG[t] } == exp[t], "call protocol: fields from the predecessor, then (event, next), then (prev, event); after a removal (prev, next); recomputation bottom-to-top on return code 2");
         t += 1;
     }
-    kani::cover!(processed == 6 && ta == tc && ta != tb, "full sweep, outer segments of one operand");
-    kani::cover!(processed < 6, "early exit taken");
-    kani::cover!(processed == 6 && codes[0] == 2, "recomputation after a coincident pair");
+    kani::cover!(mode == 1 || (processed == 6 && ta == tc && ta != tb), "full sweep, outer segments of one operand");
+    kani::cover!(mode == 0 || processed < 6, "early exit taken");
+    kani::cover!(mode == 1 || (processed == 6 && codes[0] == 2), "recomputation after a coincident pair");
     std::mem::forget((a, b, cc, sorted, q));
 }
 macro_rules! sweep_h {
-    ($name:ident, $a:expr, $b:expr, $c:expr) => {
+    ($name:ident, $a:expr, $b:expr, $c:expr, $mode:expr) => {
         #[kani::proof]
         #[kani::unwind(16)]
         #[kani::stub(crate::splay::SplaySet::insert, set_insert_model)]
@@ -309,13 +310,14 @@ macro_rules! sweep_h {
         #[kani::stub(super::super::possible_intersection::possible_intersection, possible_intersection_model)]
         #[kani::stub(std::collections::BinaryHeap::pop, super::common::heap_pop_scripted)]
         fn $name() {
-            stack3($a, $b, $c)
+            stack3($a, $b, $c, $mode)
         }
     };
 }
 // middle segment ends first: its removal makes the outer two neighbours
-sweep_h!(sweep_protocol_mid_removed, (0., 10.), (1., 5.), (2., 11.));
+sweep_h!(sweep_protocol_mid_removed, (0., 10.), (1., 5.), (2., 11.), 0);
+sweep_h!(sweep_early_exit, (0., 10.), (1., 5.), (2., 11.), 1);
 // bottom and top end before the middle one: removals without two neighbours
-sweep_h!(sweep_protocol_mid_last, (0., 4.), (1., 9.), (2., 6.));
+sweep_h!(sweep_protocol_mid_last, (0., 4.), (1., 9.), (2., 6.), 0);
 // inserted between two present segments
-sweep_h!(sweep_protocol_insert_between, (0., 10.), (3., 6.), (1., 11.));
+sweep_h!(sweep_protocol_insert_between, (0., 10.), (3., 6.), (1., 11.), 0);
